@@ -82,7 +82,7 @@ def plan(tier):
             inst.append({"id": iid, "kind": "two", "code": f'vfm15::run_two<{u1}, {u2}, {rep}, {cu}>(ID, "two {u1},{u2}:{rep}", {k1}.0L, {k2}.0L, nrandom, seed ^ ID);'})
             iid += 1
     for u in MISC_UNITS:
-        for rep in ("double", "float", "int32_t", "int8_t", "int64_t", "long double"):
+        for rep in ("double", "float", "int32_t", "int8_t", "int16_t", "int64_t", "long double"):
             inst.append({"id": iid, "kind": "misc", "code": f'vfm15::run_misc<{u}, {rep}>(ID, "misc {u}:{rep}", nrandom, seed ^ ID);'})
             iid += 1
     for i in inst:
